@@ -403,6 +403,20 @@ def parse_cases(prop, tier, skip_opts=True):
         for nm in sorted(SPECIAL_COMMANDS):
             for body in ('{\\x}{\\begin{y}}', '{\\x}[1]{\\begin{y}#1}', '{\\x}[2][d]{\\end{y}}', '\\x{\\begin{y}}'):
                 cases.append(('\\%s%s t \\begin{y}u\\end{y}' % (nm, body), 0, ()))
+        # names that are fragments / extensions of the names the reader
+        # dispatches on, and environments whose name merely starts with (or
+        # extends) a verbatim-like or math name
+        for nm in ('i', 't', 'e', 'it', 'em', 'ite', 'tem', 'items', 'en', 'nd', 'ends', 'beg', 'begins'):
+            for tail in (' x', '[o] {a}\n\n{b}[k] tail', '{a} b \\item c'):
+                cases.append(('\\%s%s' % (nm, tail), 0, ()))
+                cases.append(('\\begin{itemize}\\item u \\%s%s\\end{itemize}' % (nm, tail), 1, ()))
+                cases.append(('$\\%s%s$' % (nm, tail), 0, ()))
+        for base in list(SKIP_ENV_NAMES)[:3] + list(MATH_ENV_NAMES)[:3]:
+            for nm in (base + 's', base + 'box', base[:-1], 'x' + base):
+                for body in ('\\textbf{x} y', '\\textbf{x y', '$', '\\item a'):
+                    d = '\\begin{%s}%s\\end{%s} t' % (nm, body, nm)
+                    cases.append((d, 0, ()))
+                    cases.append((d, 1, ()))
     except Exception:      # noqa
         pass
     if skip_opts:
